@@ -162,7 +162,7 @@ func runC09(r *Rand, tier string, o *Out) {
 			o.Count("case:whitespace")
 			pos := r.Intn(len(s) + 1)
 			m := s[:pos] + ws[r.Intn(len(ws))] + s[pos:]
-			res := o.Do("X", "sig.parse "+hx([]byte(m)), true)
+			res := o.Do("P", "sig.parse "+hx([]byte(m)), true)
 			checkFixedPoint(o, m, res)
 		case k < 85: // near misses: delete / insert / swap one character
 			o.Count("case:near-miss")
@@ -186,7 +186,7 @@ func runC09(r *Rand, tier string, o *Out) {
 			if strings.Count(string(b), "(") > 9 {
 				continue
 			}
-			res := o.Do("X", "sig.parse "+hx(b), true)
+			res := o.Do("P", "sig.parse "+hx(b), true)
 			checkFixedPoint(o, string(b), res)
 		default: // arbitrary bytes
 			o.Count("case:random-bytes")
@@ -196,7 +196,7 @@ func runC09(r *Rand, tier string, o *Out) {
 			for j := range b {
 				b[j] = alphabet[r.Intn(len(alphabet))]
 			}
-			res := o.Do("X", "sig.parse "+hx(b), true)
+			res := o.Do("P", "sig.parse "+hx(b), true)
 			checkFixedPoint(o, string(b), res)
 		}
 	}
